@@ -294,6 +294,11 @@ def get_deterministic_sign_multiplier(data: DataArray, dim: str) -> DataArray:
     min_max = xr.concat([data.max(dim), data.min(dim)], dim="sign")
     min_max = min_max.assign_coords(sign=[1, -1])
     sign_multiplier = np.abs(min_max).idxmax("sign")
+    # If maximum and minimum tie in magnitude with a negative maximum (all entries
+    # equal and negative, e.g. a single feature), the entries must be flipped too
+    if not np.iscomplexobj(data):
+        maximum = min_max.isel(sign=0, drop=True)
+        sign_multiplier = xr.where(maximum < 0, -1, sign_multiplier)
     # Drop all dimensions except 'mode' so that the index is clean
     for dim, coords in sign_multiplier.coords.items():
         if dim != "mode":
